@@ -383,9 +383,10 @@ func runProperty(cfg RunConfig, evidencePath, knownPath, baselinePath string, up
 	var missing []string
 	for n := range inBase {
 		// implicit safety and call-site obligations depend on the shape of the code; only
-		// contract clauses (post-conditions, loop invariants) must keep existing; a frame obligation
-		// that is no longer emitted holds trivially
-		if !generated[n] && (strings.Contains(n, "/post#") || strings.Contains(n, "/inv")) {
+		// post-conditions must keep existing: a frame obligation that is no longer emitted holds
+		// trivially, and a loop invariant is a proof hint — when its loop has moved into a helper the
+		// function's post-conditions are what still has to be proved
+		if !generated[n] && strings.Contains(n, "/post#") {
 			missing = append(missing, n)
 		}
 	}
